@@ -35,8 +35,13 @@ def run(ctx):
                 "live_lock_removed_without_break": "non-break-operation",
                 "failed_attempt_holds": "_attempt_lock", "unrecoverable": "crash-state"}[kind]
         if kind == "wrong_break":
-            sig = "break-removed-unexamined-lock:%s:examined-holder-released-and-later-holder-acquired" % site \
-                if detail["examined"] is not None and detail["removed"] != detail["examined"] else "wrong_break:" + site
+            if detail.get("force_break_arg") != detail["examined"]:
+                # force_break was CALLED for a holder other than the one the user / policy examined
+                sig = "break-requested-for-unexamined-holder:break_lock-or-steal:holder-changed-after-examination"
+            elif detail["examined"] is not None and detail["removed"] != detail["examined"]:
+                sig = "break-removed-unexamined-lock:%s:examined-holder-released-and-later-holder-acquired" % site
+            else:
+                sig = "wrong_break:" + site
         else:
             sig = "%s:%s" % (kind, site)
         ctx.violation(sig, "%s %s" % (kind, detail), {"params": cur[0], "schedule": schedule, "detail": detail})
